@@ -12,7 +12,9 @@ def shipped_params():
     return {"Ed25519": ParamsEd25519, "I1024": Params1024, "I2048": Params2048, "I3072": Params3072}
 
 
-TOYS = {"toy11": (23, 11, 2), "toy1019": (2039, 1019, 4), "toy65537": None}
+# custom groups: p and q deliberately NOT a whole number of bytes wide (the shipped ones all are)
+TOYS = {"toy11": (23, 11, 2), "toy1019": (2039, 1019, 4), "toy257": (1543, 257, 64),
+        "sp61": (2305843009213699919, 1152921504606849959, 4)}
 
 
 def toy_group(name="toy11", g=None):
@@ -104,6 +106,34 @@ def leading_zero_scalar(make_start, limit=4000):
         if m[1] == 0:
             return x, m
     return None, None
+
+
+def fresh_import_order_check():
+    """in a fresh interpreter: build custom parameter sets FIRST, import the shipped parameter modules afterwards, and
+    print the encodings of their M, N, S (they must still be the released constants)"""
+    import subprocess, sys, os, json
+    code = (
+        "import json\n"
+        "from spake2.params import _Params\n"
+        "from spake2 import groups\n"
+        "from spake2.ed25519_group import Ed25519Group\n"
+        "_Params(groups.I1024, N=b'M', S=b'my-app symmetric')\n"
+        "_Params(groups.I2048, M=b'N')\n"
+        "_Params(Ed25519Group, M=b'x', N=b'x', S=b'x')\n"
+        "from spake2.parameters.i1024 import Params1024\n"
+        "from spake2.parameters.i2048 import Params2048\n"
+        "from spake2.parameters.i3072 import Params3072\n"
+        "from spake2.parameters.ed25519 import ParamsEd25519\n"
+        "fresh = _Params(groups.I1024)\n"
+        "out = {}\n"
+        "for nm, P in (('I1024', Params1024), ('I2048', Params2048), ('I3072', Params3072), ('Ed25519', ParamsEd25519), ('fresh I1024', fresh)):\n"
+        "    out[nm] = [P.M.to_bytes().hex(), P.N.to_bytes().hex(), P.S.to_bytes().hex()]\n"
+        "print(json.dumps(out))\n")
+    p = subprocess.run([sys.executable, "-c", code], capture_output=True, text=True, env=dict(os.environ), timeout=300)
+    try:
+        return json.loads(p.stdout.strip().splitlines()[-1])
+    except Exception:
+        return {"error": (p.stderr or p.stdout)[-400:]}
 
 
 def finish_outcome(inst, msg):
